@@ -1,0 +1,110 @@
+//go:build verif
+
+package keystore
+
+// Lockset contracts for govc (see /verif/DESIGN.md, C14). Comment-only; compiled only with -tags verif.
+//
+// kmcLocked: the executing thread holds KeystoreManagerForPoC.mu; amLocked: it holds some AddrManager.mu.
+// State of an AddrManager is written only with both the manager lock and its own lock, and read with at
+// least one of them; ManagedAddress, accountInfo and branchInfo objects belong to their AddrManager.
+
+//@ type KeystoreManagerForPoC lock mu sets kmcLocked
+//@ type AddrManager lock mu sets amLocked
+//@ type KeystoreManagerForPoC protects managedKeystores, unlocked, pubPassphrase reads held[addr(this.mu)] writes held[addr(this.mu)]
+// addrs and remark are also read by callers that hold only the address manager's own lock (ListAddresses, Address, ...)
+//@ type AddrManager protects remark, addrs reads held[addr(this.mu)] || kmcLocked writes held[addr(this.mu)] && kmcLocked
+// everything else is only ever touched under the manager lock
+//@ type AddrManager protects acctInfo, branchInfo, unlocked, masterKeyPub, masterKeyPriv, cryptoKeyPrivEncrypted, cryptoKeyPriv, privPassphraseSalt, hashedPrivPassphrase reads held[addr(this.mu)] || kmcLocked writes kmcLocked
+//@ type accountInfo protects acctKeyEncrypted, acctKeyPriv, acctKeyPub reads amLocked || kmcLocked writes kmcLocked
+//@ type branchInfo protects internalBranchPub, internalBranchPriv, externalBranchPub, externalBranchPriv, nextExternalIndex, nextInternalIndex reads amLocked || kmcLocked writes kmcLocked
+//@ type ManagedAddress protects privKey reads amLocked || kmcLocked writes kmcLocked
+
+// ---- entry lock context of each method (obligations at every call site)
+//@ spec func nolocks() bool = (forall m int :: !held[m]) && !kmcLocked && !amLocked
+//@ func (*KeystoreManagerForPoC).NewKeystore
+//@   requires lock-entry: nolocks()
+//@ func (*KeystoreManagerForPoC).ImportKeystore
+//@   requires lock-entry: nolocks()
+//@ func (*KeystoreManagerForPoC).ExportKeystore
+//@   requires lock-entry: nolocks()
+//@ func (*KeystoreManagerForPoC).DeleteKeystore
+//@   requires lock-entry: nolocks()
+//@ func (*KeystoreManagerForPoC).Unlock
+//@   requires lock-entry: nolocks()
+//@ func (*KeystoreManagerForPoC).Lock
+//@   requires lock-entry: nolocks()
+//@ func (*KeystoreManagerForPoC).NextAddresses
+//@   requires lock-entry: nolocks()
+//@ func (*KeystoreManagerForPoC).SignMessage
+//@   requires lock-entry: nolocks()
+//@ func (*KeystoreManagerForPoC).SignHash
+//@   requires lock-entry: nolocks()
+//@ func (*KeystoreManagerForPoC).VerifySig
+//@   requires lock-entry: nolocks()
+//@ func (*KeystoreManagerForPoC).ListKeystoreNames
+//@   requires lock-entry: nolocks()
+//@ func (*KeystoreManagerForPoC).GetManagedAddrManager
+//@   requires lock-entry: nolocks()
+//@ func (*KeystoreManagerForPoC).ChainParams
+//@   requires lock-entry: nolocks()
+//@ func (*KeystoreManagerForPoC).GetPublicKeyOrdinal
+//@   requires lock-entry: nolocks()
+//@ func (*KeystoreManagerForPoC).GetAddressByPubKey
+//@   requires lock-entry: nolocks()
+//@ func (*KeystoreManagerForPoC).ChangeRemark
+//@   requires lock-entry: nolocks()
+//@ func (*KeystoreManagerForPoC).ChangePubPassphrase
+//@   requires lock-entry: nolocks()
+//@ func (*KeystoreManagerForPoC).ChangePrivPassphrase
+//@   requires lock-entry: nolocks()
+//@ func (*KeystoreManagerForPoC).IsLocked
+//@   requires lock-entry: nolocks()
+//@ func (*KeystoreManagerForPoC).GenerateNewPublicKey
+//@   requires lock-entry: nolocks()
+//@ func (*KeystoreManagerForPoC).useKeystore
+//@   requires lock-entry: held[addr(kmc.mu)] && kmcLocked && !amLocked && (forall b *AddrManager :: !held[addr(b.mu)])
+//@ func (*KeystoreManagerForPoC).getAddrManager
+//@   requires lock-entry: held[addr(kmc.mu)] && kmcLocked && !amLocked && (forall b *AddrManager :: !held[addr(b.mu)])
+//@ func (*KeystoreManagerForPoC).allocAddrMgrNamespace
+//@   requires lock-entry: held[addr(kmc.mu)] && kmcLocked && !amLocked && (forall b *AddrManager :: !held[addr(b.mu)])
+//@ func (*AddrManager).clearPrivKeys
+//@   requires lock-entry: kmcLocked && !amLocked && !held[addr(a.mu)]
+//@ func (*AddrManager).updatePrivKeys
+//@   requires lock-entry: kmcLocked && !amLocked && !held[addr(a.mu)]
+//@ func (*AddrManager).exportKeystore
+//@   requires lock-entry: kmcLocked && !amLocked && !held[addr(a.mu)]
+//@ func (*AddrManager).nextAddresses
+//@   requires lock-entry: kmcLocked && !amLocked && !held[addr(a.mu)]
+//@ func (*AddrManager).changePrivPassphrase
+//@   requires lock-entry: kmcLocked && !amLocked && !held[addr(a.mu)]
+//@ func (*AddrManager).destroy
+//@   requires lock-entry: kmcLocked && !amLocked && !held[addr(a.mu)]
+//@ func (*AddrManager).signPocec
+//@   requires lock-entry: kmcLocked && !amLocked && !held[addr(a.mu)]
+//@ func (*AddrManager).verifySigPocec
+//@   requires lock-entry: kmcLocked && !amLocked && !held[addr(a.mu)]
+//@ func (*AddrManager).CountAddresses
+//@   requires lock-entry: !amLocked && !held[addr(a.mu)]
+//@ func (*AddrManager).ListAddresses
+//@   requires lock-entry: !amLocked && !held[addr(a.mu)]
+//@ func (*AddrManager).ManagedAddresses
+//@   requires lock-entry: !amLocked && !held[addr(a.mu)]
+//@ func (*AddrManager).Address
+//@   requires lock-entry: !amLocked && !held[addr(a.mu)]
+//@ func (*AddrManager).checkPassword
+//@   requires lock-entry: kmcLocked
+//@ func (*AddrManager).safelyCheckPassword
+//@   requires lock-entry: kmcLocked
+//@ func (*AddrManager).updateManagedAddress
+//@   requires lock-entry: kmcLocked && !amLocked && !held[addr(a.mu)]
+//@ func (*AddrManager).changeRemark
+//@   requires lock-entry: kmcLocked && !amLocked && !held[addr(a.mu)]
+//@ func (*AddrManager).Remarks
+//@   requires lock-entry: !amLocked && !held[addr(a.mu)]
+
+//@ func newManagedAddressWithoutPrivKey
+//@   modifies nothing
+//@   ensures fresh-result: err == nil ==> result0 != nil && fresh(result0)
+// PrivKey has no callers outside tests; whoever calls it must hold a lock that covers the address.
+//@ func (*ManagedAddress).PrivKey
+//@   requires lock-entry: amLocked || kmcLocked
